@@ -211,6 +211,13 @@ class Shard:
 
     def _maybe_restart(self, progressed):
         self.restarts += 1
+        # fail fast: once a shard has reported plenty of violations, further ones add nothing to the verdict
+        nv = sum(1 for r in read_jsonl(self.out) if r.get("t") == "E" and r["res"].get("verdict") == "violated") + \
+            sum(1 for r in self.synthetic if r.get("t") == "E")
+        if nv >= 20:
+            self.synthetic.append({"t": "I", "family": "driver", "info": {"shard_stopped_after_violations": nv, "shard": self.i}})
+            self.done = True
+            return True
         if not progressed or self.restarts > 200:
             self.synthetic.append({"t": "X", "why": "shard gave up after %d restarts" % self.restarts, "tail": self.logtail(4000)})
             self.done = True
@@ -289,7 +296,25 @@ def load_known():
     return {(e["property"], e["key"]): e for e in k.get("known", [])}
 
 
+LIVE = []
+
+
+def _kill_children(*_a):
+    for sh in LIVE:
+        try:
+            if sh.proc and sh.proc.poll() is None:
+                sh.proc.kill()
+        except Exception:
+            pass
+    if _a:
+        sys.exit(2)
+
+
 def main():
+    import atexit
+    atexit.register(_kill_children)
+    signal.signal(signal.SIGTERM, _kill_children)
+    signal.signal(signal.SIGINT, _kill_children)
     ap = argparse.ArgumentParser()
     ap.add_argument("prop")
     ap.add_argument("--tier", default=os.environ.get("VERIF_TIER", "quick"))
@@ -308,6 +333,9 @@ def main():
     os.makedirs(os.path.join(ROOT, "build"), exist_ok=True)
     os.makedirs(os.path.join(ROOT, "evidence"), exist_ok=True)
     os.makedirs(os.path.join(ROOT, "replay"), exist_ok=True)
+    # drop the leftovers of earlier failed runs of this property (their logs were kept for inspection)
+    for old in sorted(glob.glob(os.path.join(ROOT, "build", "run-%s-*" % prop)), key=os.path.getmtime)[:-2]:
+        shutil.rmtree(old, ignore_errors=True)
     rundir = os.path.join(ROOT, "build", "run-%s-%d" % (prop, os.getpid()))
     shutil.rmtree(rundir, ignore_errors=True)
     os.makedirs(rundir)
@@ -339,8 +367,15 @@ def main():
         shards = [Shard(rundir, p["name"], p, bins[p["name"]], i, n, a.seed, tier, extra_env) for i in range(n)]
         for s in shards:
             s.start()
-        while not all(s.poll() for s in shards):
+        LIVE[:] = shards
+        while True:
+            # poll every shard on every round (all() would stop at the first unfinished one
+            # and starve the watchdogs of the others)
+            states = [s.poll() for s in shards]
+            if all(states):
+                break
             time.sleep(0.2)
+        LIVE[:] = []
         for s in shards:
             for r in s.records():
                 r["pass"] = p["name"]
